@@ -32,7 +32,10 @@ EXPLANATION = (
 EXPLANATION += (' R-C13-4: the acquire helper gives placeholders exactly to the level names that are None (identity test, not truthiness), the release helper resets exactly the placeholders, and where an aligned pair is re-ordered both results are re-ordered to the canonical level order.')
 EXPLANATION += (" R-C13-5: the index cache gives every level its own range of integer codes (position in the level's key table plus a cumulative per-level offset) and the decoding subtracts exactly that offset; bare positions would let the re-coded indices of operands with different level names or orders compare equal, in which case align() returns them un-aligned.")
 EXPLANATION += (" R-C13-5 also requires every path of a code helper to look the keys up in the level's key table (no positional shortcut). R-C13-6: the frame-to-frame path returns fresh objects: its return summary (effect analysis) contains no alias or view of an operand.")
+EXPLANATION += (" R-C13-7: the object is aligned directly with the caller's parameter only where an isinstance test excludes the combination DataFrame object / Series parameter (which is otherwise wrapped into a one-column frame).")
 ASSUMPTIONS = [
+    "pandas DataFrame.align(Series, axis=0) may return the frame with its previous index when the joined index requires no row "
+    "movement on the frame side (behaviour of the installed pandas; the repository wraps the series for that reason)",
     "pandas align/join return both operands unchanged when their indices compare equal, and Index.equals ignores level names",
     "pandas methods without inplace=True return new objects (align, join, reorder_levels, groupby().first(), iloc)",
     "assigning obj.index.names mutates the Index object held by obj (so a saved Index keeps a placeholder name until the "
@@ -288,6 +291,81 @@ def run(ctx):
     ctx.attempt(lambda c: _r4(c, acquire, release))
     ctx.attempt(lambda c: _r5(c, cache))
     ctx.attempt(lambda c: _r6(c, eff))
+    ctx.attempt(_r7)
+
+
+def _kind_tests(test):
+    """isinstance(<e>, pd.<Kind>) facts of a condition: (conjuncts, negated?) -> set of (expr text, kind)"""
+    out = set()
+    parts = test.values if isinstance(test, ast.BoolOp) and isinstance(test.op, ast.And) else [test]
+    for p_ in parts:
+        if isinstance(p_, ast.Call) and call_name(p_) == "isinstance" and len(p_.args) == 2:
+            k = norm_text(p_.args[1])
+            if k in ("pd.DataFrame", "pd.Series"):
+                out.add((norm_text(p_.args[0]), k.split(".")[1]))
+    return out, len(parts)
+
+
+def _mixed_align_sites(fn_node, operand_names):
+    """`.align(<operand>, axis=0)` calls whose receiver/argument kinds are not separated by an isinstance guard that excludes
+    the combination DataFrame receiver / Series argument: [(call, guarded?)]"""
+    out = []
+    for c in ast.walk(fn_node):
+        if not (isinstance(c, ast.Call) and isinstance(c.func, ast.Attribute) and c.func.attr == "align" and c.args):
+            continue
+        arg = c.args[0]
+        if not (isinstance(arg, ast.Name) and arg.id in operand_names):
+            continue
+        recv, a = norm_text(c.func.value), arg.id
+        guarded = False
+        n = c
+        while getattr(n, "_parent", None) is not None and n is not fn_node:
+            par = n._parent
+            if isinstance(par, ast.If):
+                facts, nparts = _kind_tests(par.test)
+                in_else = any(n is x for x in par.orelse)
+                in_body = any(n is x for x in par.body)
+                if in_else and facts == {(recv, "DataFrame"), (a, "Series")} and nparts == 2:
+                    guarded = True
+                if in_body and ((a, "DataFrame") in facts or (recv, "Series") in facts):
+                    guarded = True
+                if in_else and nparts == 1 and ((a, "Series") in facts or (recv, "DataFrame") in facts):
+                    guarded = True
+            n = par
+        out.append((c, guarded))
+    return out
+
+
+def _r7(ctx):
+    """Kind discipline of the alignment: DataFrame.align(Series, axis=0) is not reliable in pandas (it can hand the frame back
+    with its old index when no row of the frame has to move - assumption below), so the object and the parameter are aligned
+    directly only when that combination is excluded; otherwise the series is wrapped into a one-column frame first."""
+    prog = ctx.prog
+    ctx.rule("R-C13-7", floor=1, what="no direct DataFrame.align(Series) between the operands: the mixed case is wrapped or excluded by a kind test")
+    import ast as _a
+    from ..frontend import set_parents as _sp
+    ex = _sp(_a.parse("def f(self, parameter):\n    obj, prm = self._obj.align(parameter, axis=0)\n    return obj, prm\n")).body[0]
+    if [g for _, g in _mixed_align_sites(ex, ["parameter"])] != [False]:
+        raise AnalysisError("R-C13-7 built-in example not matched")
+    n = 0
+    for key, fi in sorted(prog.functions.items()):
+        if fi.module.name != MOD:
+            continue
+        names = set(fi.params) | (set(fi.parent.params) if fi.parent is not None else set())
+        names.discard("self")
+        for c, guarded in _mixed_align_sites(fi.node, names):
+            if any(c is c2 for f2 in prog.functions.values() if f2.parent is fi for c2 in ast.walk(f2.node)):
+                continue                    # reported with the nested function
+            n += 1
+            if guarded:
+                ctx.holds(fi, c, "%s: the combination DataFrame receiver / Series argument is excluded by a kind test" % norm_text(c))
+            else:
+                ctx.violated(fi, c, "%s aligns the object with the caller's parameter whatever their kinds: for a DataFrame object "
+                             "and a Series parameter pandas can return the frame with its old index, so the two results do not "
+                             "share an index (wrap the series into a one-column frame, or exclude the combination with an "
+                             "isinstance test)" % norm_text(c), text="mixed align " + norm_text(c))
+    if n == 0:
+        raise AnalysisError("no alignment of the operands found in the broadcaster")
 
 
 def _r6(ctx, eff):
